@@ -46,7 +46,7 @@ func init() {
 		ID:    "C01",
 		Title: "Layout always returns",
 		Count: counts(270*48, 270*400),
-		Rule: "case i uses algorithm cell i mod 270 (3 breakers x 2 layerers x 9 positioners x 5 routers), a graph from families F1-F11 " +
+		Rule: "case i uses algorithm cell i mod 270 (3 breakers x 2 layerers x 9 positioners x 5 routers; every second sweep over the grid forces splines routing), a graph from families F1-F11 " +
 			"(<= 40 nodes, a few deep/wide/300-node ones for linear cells; <= 14 nodes for the network simplex positioner), a random size mode " +
 			"(none/fixed/map all/map some/map none/zeros), spacings in {0, small, default, medium, large}, thoroughness in {default,0,1,7,100}; " +
 			"non-trivial = >= 3 nodes and (cycle | parallel/antiparallel pair | self loop | >= 2 components | more edges than nodes-1)",
@@ -61,6 +61,11 @@ func init() {
 		Gen: func(seed int64, tier string, idx int) *core.Case {
 			r := rng("C01", seed, tier, idx)
 			o := cellFromIndex(idx)
+			if (idx/270)%2 == 1 {
+				// every second sweep over the grid replaces the router by splines: corridor construction, shortest path and
+				// spline fitting are by far the most fragile code, and only one cell in five reaches them otherwise
+				o.Router = 3
+			}
 			o.Explicit = r.Intn(2) == 0
 			c := &core.Case{Prop: "C01", Tier: tier, Seed: seed, Index: idx}
 			maxN := 40
@@ -87,6 +92,17 @@ func init() {
 			applySizes(r, &o, nodeIDs(c.Edges), r.Intn(sizeModes), c.Regime, maxSize)
 			o.NodeSpacing = spacingVal(r, c.Regime, true)
 			o.LayerSpacing = spacingVal(r, c.Regime, true)
+			if (idx/270)%2 == 1 && r.Intn(2) == 0 {
+				// regular geometry (one fixed size, round spacings): nodes line up, corridor corners become collinear and
+				// path points coincide with polygon vertices, the coincidences the geometry code is sensitive to
+				o.Sizes = nil
+				o.HasFixed, o.FixedW, o.FixedH = true, float64(10*(1+r.Intn(12))), float64(10*(1+r.Intn(8)))
+				o.NodeSpacing = fptr(float64(10 * (1 + r.Intn(8))))
+				o.LayerSpacing = fptr(float64(10 * (1 + r.Intn(12))))
+				if o.Positioner == 3 {
+					o.FixedW, o.NodeSpacing = float64(10*(1+r.Intn(5))), fptr(float64(10*(1+r.Intn(3))))
+				}
+			}
 			if o.Positioner == 3 && o.NodeSpacing != nil && *o.NodeSpacing > 64 {
 				o.NodeSpacing = fptr(64)
 			}
